@@ -60,7 +60,7 @@ def other_loops(ctx):
     for name, f in sorted(ctx.prog.fns.items()):
         if "hir" not in f or "::_::" in name:
             continue
-        h = f["hir"]
+        h = ctx.prog.hir(name)
         for x in walk_exprs(h):
             if x["k"] != "Loop":
                 continue
@@ -80,6 +80,13 @@ def other_loops(ctx):
                 idiom = "lexer-driven loop"
             elif "pop_front" in calls and "is_empty" in calls:
                 idiom = "shrinking queue with emptiness exit"
+            elif any(y["k"] == "Match" and any(c["k"] == "MCall" and c["m"] in ("pop_front", "pop", "pop_back") for c in walk_exprs(y["scrut"])) and
+                     any(a["body"]["k"] == "Break" or diverges(a["body"]) for a in y["arms"] if "None" in render_pat(a["pat"]) or a["pat"]["k"] == "Wild")
+                     for y in walk_exprs(x["body"])) or \
+                    any(y["k"] == "If" and y["c"]["k"] == "LetE" and "Some" in render_pat(y["c"]["pat"]) and "e" in y and diverges(y["e"]) and
+                        any(c["k"] == "MCall" and c["m"] in ("pop_front", "pop", "pop_back") for c in walk_exprs(y["c"]["init"]))
+                        for y in walk_exprs(x["body"])):
+                idiom = "`while let Some(..) = queue.pop*()`: shrinking queue, exit when it yields None"
             elif "pop" in calls and any(y["k"] in ("Ret", "Break") for y in walk_exprs(x["body"])) and "PathBuf" in str([y.get("ty") for y in walk_exprs(x["body"]) if y["k"] == "MCall" and y["m"] == "pop"]) or \
                     ("pop" in calls and "parent_found" in r):
                 idiom = "PathBuf::pop with false exit"
